@@ -25,7 +25,8 @@ EXPLANATION = (
     "without stocks or with a process without flows. (3) check_flows under every class assignment {fine, tiny non-negative, entry below -tolerance, "
     "NaN} to the flows and every exception list (none, a flow name, a process name, a name that is a substring of another name) "
     "must flag exactly the non-excepted NaN / negative flows. Decides the structure of the checks for all values; rounding against "
-    "the tolerance is not decided.")
+    "the tolerance is not decided. "
+    "Also: balances with identically-zero flows (their dimensions still count), an explicit tolerance of 0 (a tiny non-zero balance is then a violation), and a history on one system object - checked, all arrays refilled, checked again - where no comparison may use a tolerance built from replaced values.")
 TECHNIQUE = "static analysis: abstract interpretation of the check code on labelled tensors over enumerated system graphs, with a finite magnitude-class domain {within, above, NaN} for every verdict"
 
 MOD = "mfa_system.py"
